@@ -243,6 +243,13 @@ func (c *checker) family(e []byte, marks []ref.Mark, lean bool) []mut {
 		}
 	}
 	if c.th && !lean {
+		// every byte of the first 48 +1 and -1 (fixed fields, data bytes, and again the prefixes)
+		for i := 0; i < n && i < 48; i++ {
+			for _, d := range []uint64{1, 0xff} {
+				out = append(out, applyEdits(e, []edit{{id: fmt.Sprintf("byte@%d+%#x", i, d), off: i, w: 1, val: (uint64(e[i]) + d) & 0xff,
+					json: i+1 < n && (uint64(e[i])+d)&0xff == 0x80 && e[i+1] == 0}}, 0))
+			}
+		}
 		// two mutations instead of one: every pair of point edits on different fields, bare and with each tail
 		for i := 0; i < len(eds); i++ {
 			for j := i + 1; j < len(eds); j++ {
@@ -458,7 +465,7 @@ func addJobs[R any](jobs *[]job, c *checker, bd *binding[R], vals []R, cost func
 func TestCheck(t *testing.T) {
 	r := rep.New("C04", "exploration")
 	c := &checker{r: r, th: r.Thorough()}
-	r.Rule("every RFC 6962 s3 structure (DigitallySigned, TimestampedEntry, MerkleTreeLeaf, SCT, CertificateTimestamp, TreeHeadSignature, SCT list, CertificateChain, PrecertChainEntry, the two chain-hash storage variants) x the product of its fields' boundary alphabets (timestamps {0,1,2^32,2^63,2^64-1,0x0102..08}; extensions/signature lengths {0,1,255,256,65535,65536}; cert/TBS lengths {0,1,255,256,65535,65536,2^24-1,2^24}; SCT-list totals up to 65535/65536; both entry types; all 256x256 algorithm codes; chains of 0,1,3 certs) encoded by library and reference; every valid encoding x {every proper prefix (boundary cuts for encodings > 128 bytes), +00, +ff, every length prefix +1/-1 alone and compensated by a tail byte, :=0, :=all-ones, every version/leaf-type/entry-type/signature-type code replaced; thorough: every pair of such edits} decoded by tls.Unmarshal and by every complete-parse API; the two signature-input serialisers, the verifiers, LeafHashForLeaf, the JSON messages. distinct_nontrivial = distinct (API, structure, value, mutation) cases other than plain proper-prefix cuts")
+	r.Rule("every RFC 6962 s3 structure (DigitallySigned, TimestampedEntry, MerkleTreeLeaf, SCT, CertificateTimestamp, TreeHeadSignature, SCT list, CertificateChain, PrecertChainEntry, the two chain-hash storage variants) x the product of its fields' boundary alphabets (timestamps {0,1,2^32,2^63,2^64-1,0x0102..08}; extensions/signature lengths {0,1,255,256,65535,65536}; cert/TBS lengths {0,1,255,256,65535,65536,2^24-1,2^24}; SCT-list totals up to 65535/65536; both entry types; all 256x256 algorithm codes; chains of 0,1,3 certs) encoded by library and reference; every valid encoding x {every proper prefix (boundary cuts for encodings > 128 bytes), +00, +ff, every length prefix +1/-1 alone and compensated by a tail byte, :=0, :=all-ones, every version/leaf-type/entry-type/signature-type code replaced; thorough: also every one of the first 48 bytes +1/-1 and every pair of field edits, bare and with each tail} decoded by tls.Unmarshal and by every complete-parse API; the two signature-input serialisers, the verifiers, LeafHashForLeaf, the JSON messages. distinct_nontrivial = distinct (API, structure, value, mutation) cases other than plain proper-prefix cuts")
 	r.Assume("Version and SignatureType bytes are carried, not judged, by the plain codec; only the signature-input serialisers must refuse versions other than v1 (as the property states)",
 		"LogEntryType 0x8000 (the library's documented experimental JSONDataEntry arm) is outside RFC 6962: plain tls.Unmarshal inputs carrying it are not compared; RawLogEntryFromLeaf, LogEntryFromLeaf and SerializeSCTSignatureInput must refuse it",
 		"CertificateChainHash / PrecertChainEntryHash are library storage layouts, not RFC structures; their reference layout follows the documentation in types.go (opaque<0..256>, 2-byte length)",
